@@ -112,17 +112,30 @@ def alphabet():
 
 
 def string_alphabet():
-    """characters used inside longer strings: pinned characters that are not combining marks"""
+    """characters used inside longer strings: pinned characters that are not combining marks
+    (blank and newline are added by the generators themselves; NBSP, en space etc. stay in)"""
     return [c for c in alphabet() if not unicodedata.category(c).startswith('M')
-            and not c.isspace()]
+            and c not in ' \n']
 
 
-def valid_domain(s):
-    if s != s.strip():
-        return False
+_RX_BLANK_LINE_WITH_BLANKS = None
+
+
+def valid_domain(s, nfc_only=True):
+    """strings the statement covers: no ASCII ligature pair; paragraph breaks only as exactly two
+    newlines (LaTeX and latex2text normalise longer ones and blank lines holding blanks); NFC
+    unless the caller compares with the NFC form itself"""
+    global _RX_BLANK_LINE_WITH_BLANKS
+    import re
+    if _RX_BLANK_LINE_WITH_BLANKS is None:
+        _RX_BLANK_LINE_WITH_BLANKS = re.compile(r'\s+')
+    for m in _RX_BLANK_LINE_WITH_BLANKS.finditer(s):
+        run = m.group()
+        if run.count('\n') >= 2 and run[run.find('\n'):run.rfind('\n') + 1] != '\n\n':
+            return False        # a paragraph break other than exactly two newlines
     if any(l in s for l in LIGATURES):
         return False
-    if unicodedata.normalize('NFC', s) != s:
+    if nfc_only and unicodedata.normalize('NFC', s) != s:
         return False
     return True
 
@@ -168,6 +181,11 @@ def check(s, cfg, res, case, single=False):
     except Exception as e:
         res.fail(exc_key(e), exc_detail(e) + ' for %r' % s, case)
         return
+    if single and len(s) == 1 and not s.isascii() and not latex.isascii():
+        # an invertible character is one that *has* an encoding: passed through raw it would
+        # round-trip trivially (unknown characters are kept by the encoder used here)
+        res.fail('c08:single-not-encoded:U+%04X' % ord(s), '%r is encoded as %r' % (s, latex), case)
+        return
     if back != want:
         if single:
             key = 'c08:single:U+%04X' % ord(s)
@@ -191,6 +209,7 @@ def plan(tier, seed):
     shards = [('singles', k) for k in range(NSHARDS)]
     shards += [('classpairs', k) for k in range(NSHARDS)]
     shards += [('asciipairs', k) for k in range(NSHARDS)]
+    shards += [('extras', k) for k in range(4)]
     shards += [('rand', nrand // NSHARDS, seed * 1000 + k) for k in range(NSHARDS)]
     if tier == 'thorough':
         shards += [('allpairs', k, 64) for k in range(64)]
@@ -200,7 +219,8 @@ def plan(tier, seed):
             'required_classes': ['single', 'class-pair', 'random', 'pair:ends-control-word>letter',
                                  'pair:ends-control-word>space', 'pair:ends-brace>letter',
                                  'pair:ends-control-symbol>letter', 'double-newline',
-                                 'ascii-pairs']}
+                                 'ascii-pairs', 'table-coverage-checked', 'decomposed-input',
+                                 'module-helpers', 'edge-whitespace']}
 
 
 def class_pairs():
@@ -223,8 +243,92 @@ def class_pairs():
     return out
 
 
+def excluded_set():
+    out = set()
+    for line in open(os.path.join(DATA, 'c08_excluded.txt'), encoding='utf-8'):
+        line = line.strip()
+        if line and not line.startswith('#'):
+            out.add(int(line.split()[0], 16))
+    return out
+
+
+def run_extras(k, res):
+    """(0) built-in entries that are neither pinned as invertible nor on the documented exclusion
+    list (a new encoding must round-trip); (1) decomposed forms of the pinned characters: the
+    round trip returns the NFC string; (2) the module-level helpers give the class's output;
+    (3) whitespace at the edges and in runs"""
+    from pylatexenc import latexencode
+    pinned = alphabet()
+    if k == 0:
+        known = set(ord(c) for c in pinned) | excluded_set()
+        for o in sorted(set(table()) - known):
+            c = chr(o)
+            if unicodedata.normalize('NFC', c) != c:
+                continue
+            for cfg in CONFIGS:
+                check(c, cfg, res, {'s': c, 'cfg': list(cfg), 'single': True}, single=True)
+            res.label('unlisted-built-in-entry')
+        res.label('table-coverage-checked')
+    elif k == 1:
+        for c in pinned:
+            d = unicodedata.normalize('NFD', c)
+            if d == c:
+                continue
+            for s in (d, 'a' + d + 'b', d + d):
+                if not valid_domain(s, nfc_only=False):
+                    continue
+                for cfg in (CONFIGS[0], CONFIGS[3], CONFIGS[5]):
+                    check(s, cfg, res, {'s': s, 'cfg': list(cfg)})
+                res.nontriv_distinct()
+            res.label('decomposed-input')
+    elif k == 2:
+        sample = pinned[::7] + ['é x', 'a{b}', '— –', 'ñ\nx', '\\textbf', '50% & #1']
+        for s in sample:
+            for prot in PROTS:
+                res.case()
+                want = enc(prot).unicode_to_latex(s)
+                got = latexencode.unicode_to_latex(s, replacement_latex_protection=prot,
+                                                   unknown_char_policy='keep',
+                                                   unknown_char_warning=False)
+                if got != want:
+                    res.fail('c08:module-helper-differs', 'unicode_to_latex(%r, protection=%s) = '
+                             '%r, encoder object gives %r' % (s, prot, got, want),
+                             {'s': s, 'cfg': [prot, False], 'helper': True})
+            res.case()
+            try:
+                got = latexencode.utf8tolatex(s, non_ascii_only=False, brackets=True,
+                                              substitute_bad_chars=False, fail_bad_chars=False)
+                want = enc('braces').unicode_to_latex(s)
+            except Exception as e:
+                res.fail(exc_key(e), exc_detail(e), {'s': s, 'cfg': ['braces', False], 'helper': True})
+                continue
+            # (the pylatexenc-1 helper has its own bracketing rule; only that it converts)
+            if not isinstance(got, str):
+                res.fail('c08:utf8tolatex-not-a-string', repr(type(got)),
+                         {'s': s, 'cfg': ['braces', False], 'helper': True})
+        res.label('module-helpers')
+    else:
+        cores = ['é', '—', 'a', 'ł', '\xa0', '{x}', 'ß!', 'α']
+        ws = ['', ' ', '  ', '\n', '\t', ' \n', '\n\n', '\n\n\n']
+        for a in ws:
+            for core in cores:
+                for b in ws:
+                    for mid in ('', '  ', ' \t '):
+                        s = a + core + (mid + core if mid else '') + b
+                        if not valid_domain(s):
+                            continue
+                        for cfg in CONFIGS:
+                            check(s, cfg, res, {'s': s, 'cfg': list(cfg)})
+                        res.nontriv_distinct()
+        res.label('edge-whitespace')
+    res.exhaustive = True
+
+
 def run_shard(shard, res):
     kind = shard[0]
+    if kind == 'extras':
+        run_extras(shard[1], res)
+        return
     if kind == 'singles':
         _, k = shard
         for i, c in enumerate(alphabet()):
@@ -262,7 +366,7 @@ def run_shard(shard, res):
                 for s in (a + b, 'x' + a + b + 'y', a + b + b):
                     if not valid_domain(s):
                         continue
-                    for cfg in (CONFIGS[0], CONFIGS[3], CONFIGS[6]):
+                    for cfg in (CONFIGS[0], CONFIGS[3], CONFIGS[4], CONFIGS[6]):
                         check(s, cfg, res, {'s': s, 'cfg': list(cfg)})
                     res.nontriv_distinct()
         res.label('ascii-pairs')
@@ -274,7 +378,7 @@ def run_shard(shard, res):
         pinned = set(alphabet())
         ascii_ = [chr(o) for o in range(33, 127) if chr(o) in pinned]
         piece = st.one_of(st.sampled_from(A), st.sampled_from(A), st.sampled_from(ascii_),
-                          st.sampled_from([' ', ' ', '\n', '\n\n']))
+                          st.sampled_from([' ', ' ', '\n', '\n\n', '  ', '\t']))
 
         def build(parts):
             out = ''
@@ -285,7 +389,7 @@ def run_shard(shard, res):
                 if any(cand.endswith(l) or l in cand[-3:] for l in LIGATURES):
                     continue
                 out = cand
-            return out.rstrip()
+            return out
         strat = st.tuples(st.lists(piece, min_size=2, max_size=12).map(build),
                           st.sampled_from(CONFIGS))
 
@@ -319,6 +423,9 @@ def run_shard(shard, res):
 
 
 def check_case(case, res):
+    if case.get('helper'):
+        run_extras(2, res)
+        return
     check(case['s'], tuple(case['cfg']), res, case, single=bool(case.get('single')))
 
 
